@@ -376,11 +376,21 @@ def family(fx):
     for p in cpaths(fx, b):
         if p.end != "return":
             continue
-        at = [sym.atom_bool(a) for a in p.atoms]
-        at = [(show(strip_after(x[0])), x[1]) for x in at if x]
+        # the decision may be spelled `src.is_ipv4()` or `match src.get().ip() { V4 / V6 }`: both read the canonical address
+        fam = []
+        other = []
+        for a in p.atoms:
+            ab = sym.atom_bool(a)
+            v = sym.atom_variant(fx, a)
+            if ab and show(strip_after(ab[0])) == "CanonicalSocketAddr::is_ipv4(src)":
+                fam.append("V4" if ab[1] else "V6")
+            elif v and v[2] and show(strip_after(v[0])) == "SocketAddr::ip(CanonicalSocketAddr::get(src))" and v[1] in (["V4"], ["V6"]):
+                fam.append(v[1][0])
+            elif ab or v:
+                other.append(sym.atom_text(fx, a)[:50])
         r = strip_after(p.ret)
-        rows.add((tuple(at), fp(r[2][0]) if r[0] == "call" else "?"))
-    want = {((("CanonicalSocketAddr::is_ipv4(src)", True),), "self.ipv4"), ((("CanonicalSocketAddr::is_ipv4(src)", False),), "self.ipv6")}
+        rows.add((tuple(fam), tuple(other), fp(r[2][0]) if r[0] == "call" else "?"))
+    want = {(("V4",), (), "self.ipv4"), (("V6",), (), "self.ipv6")}
     yield ob("R-C03-6", "family#udp#scrape", rows == want, b, None, "family selection %s" % sorted(rows), {"rows": sorted(map(str, rows))})
     b = fx.fn("aquatic_http::workers::swarm::storage::TorrentMaps::handle_announce_request")
     rows = set()
